@@ -29,45 +29,27 @@ open Crab
 /-- the table has exactly one entry for each of the 15 × 8 × 8 cases, in canonical order -/
 theorem C08.sgn_table_complete : Sign.keysCheck = true := by decide +kernel
 
-/-- every entry (none is a CRAB_ERROR) passes the side condition, except the four entries
-    `{ltz,gtz} / {ltz,gtz}` of the division (recorded defect) -/
-theorem C08.sgn_table_ok_partial : Sign.tableCheck true = true := by decide +kernel
+/-- every entry (none is a CRAB_ERROR) passes the side condition -/
+theorem C08.sgn_table_ok : Sign.tableCheck = true := by decide +kernel
 
-/-- every operation of `sign` over-approximates the concrete one — false for `operator/` -/
-def C08.sgn_op_sound_Statement : Prop :=
-  ∀ (op : SOp) (x y res : Sign) (a b r : Int), Sign.binop op x y = some res →
-    Sign.mem a x → Sign.mem b y → op.conc a b = some r → Sign.mem r res
-
-/-- all operations × all pairs of abstract values × all integers, outside the four defective
-    entries of the division -/
-theorem C08.sgn_op_sound_partial (op : SOp) (x y res : Sign) (a b r : Int)
-    (hl : Sign.binop op x y = some res) (hnd : Sign.divDefect op x y = false)
+/-- every operation of `sign` over-approximates the concrete one: all operations × all pairs
+    of abstract values × all integers -/
+theorem C08.sgn_op_sound (op : SOp) (x y res : Sign) (a b r : Int)
+    (hl : Sign.binop op x y = some res)
     (ha : Sign.mem a x) (hb : Sign.mem b y) (hc : op.conc a b = some r) : Sign.mem r res := by
-  have hm := Sign.binop_mem hl
-  have := List.all_eq_true.mp C08.sgn_table_ok_partial _ hm
-  simp only [hnd, Bool.and_false, Bool.false_or] at this
+  have := List.all_eq_true.mp C08.sgn_table_ok _ (Sign.binop_mem hl)
   exact Sign.entryOk_sound this ha hb hc
-
-/-- `gtz / gtz = gtz` in the table of the current tree, but `1 / 2 = 0` -/
-theorem C08.sgn_op_sound_counterexample : ¬ C08.sgn_op_sound_Statement := by
-  intro h
-  have hl : Sign.binop .div .gtz .gtz = some .gtz := by decide +kernel
-  exact absurd (h .div .gtz .gtz .gtz 1 2 0 hl (by decide) (by decide) (by decide)) (by decide)
 
 /-- `operator|` is an upper bound -/
 theorem C08.sgn_join_upper (x y res : Sign) (k : Int) (hl : Sign.binop .join x y = some res)
     (hk : Sign.mem k x ∨ Sign.mem k y) : Sign.mem k res := by
-  have := List.all_eq_true.mp C08.sgn_table_ok_partial _ (Sign.binop_mem hl)
-  have hd : Sign.divDefect .join x y = false := rfl
-  simp only [hd, Bool.and_false, Bool.false_or] at this
+  have := List.all_eq_true.mp C08.sgn_table_ok _ (Sign.binop_mem hl)
   exact Sign.entryOk_join this hk
 
 /-- `operator&` contains the intersection -/
 theorem C08.sgn_meet_sound (x y res : Sign) (k : Int) (hl : Sign.binop .meet x y = some res)
     (hx : Sign.mem k x) (hy : Sign.mem k y) : Sign.mem k res := by
-  have := List.all_eq_true.mp C08.sgn_table_ok_partial _ (Sign.binop_mem hl)
-  have hd : Sign.divDefect .meet x y = false := rfl
-  simp only [hd, Bool.and_false, Bool.false_or] at this
+  have := List.all_eq_true.mp C08.sgn_table_ok _ (Sign.binop_mem hl)
   exact Sign.entryOk_meet this hx hy
 
 /-- `operator<=` answers exactly the inclusion of concretisations and `operator==` the
@@ -170,7 +152,7 @@ theorem C08.bool_leq_sound (x y : BoolV) (h : BoolV.leq x y = some true) (k : Bo
 
 /-! ## non-vacuity -/
 example : Sign.binop .mul .ltz .lez = some .gez ∧ Sign.mem (-3) .ltz ∧ Sign.mem 0 .lez ∧
-    Sign.divDefect .mul .ltz .lez = false ∧ SOp.conc .mul (-3) 0 = some 0 := by
-  refine ⟨by decide +kernel, by decide, by decide, by decide, by decide⟩
+    SOp.conc .mul (-3) 0 = some 0 ∧ Sign.binop .div .gtz .gtz = some .gez ∧ SOp.conc .div 1 2 = some 0 := by
+  refine ⟨by decide +kernel, by decide, by decide, by decide, by decide +kernel, by decide⟩
 example : BoolV.binop .and .tt .top = some .top ∧ BoolV.mem true .tt ∧ BoolV.mem false .top := by
   refine ⟨by decide +kernel, by decide, by decide⟩
